@@ -438,10 +438,32 @@ func genHist(id int) O {
 		}
 		return op
 	}
+	var creates []map[string]interface{}
 	for i, k := 0, 2+rng.Intn(4); i < k; i++ {
+		if len(creates) > 0 && rng.Intn(5) == 0 {
+			// delete a machine and, in a later message, create it again exactly as it was created before
+			prev := creates[rng.Intn(len(creates))]
+			for mid := range prev["update"].(map[string]interface{}) {
+				h.Msgs = append(h.Msgs, map[string]interface{}{"id": newID("op"), "to": "captain", "delete": []interface{}{mid}})
+			}
+			again := enc.DeepCopy(prev).(map[string]interface{})
+			again["id"] = newID("op")
+			h.Msgs = append(h.Msgs, again)
+			continue
+		}
 		switch rng.Intn(5) {
 		case 0, 1:
-			h.Msgs = append(h.Msgs, capOp())
+			op := capOp()
+			if u, is := op["update"].(map[string]interface{}); is && op["delete"] == nil {
+				for _, v := range u {
+					if _, full := v.(map[string]interface{})["spec"]; full {
+						if _, st := v.(map[string]interface{})["state"]; st {
+							creates = append(creates, op)
+						}
+					}
+				}
+			}
+			h.Msgs = append(h.Msgs, op)
 		case 2: // a machine that emits captain operations
 			m := map[string]interface{}{"id": newID("m"), "to": pickS(mids)}
 			outs := []interface{}{capOp()}
